@@ -421,9 +421,44 @@ def check_side_symmetry(ctx, db):
     ctx.require('R-MIRROR displaced points', n, 20)
 
 
+def check_join_mirror(ctx, db):
+    """R-MIRROR.joins: apart from the round join (whose arc runs the other way round) the outer-side join of the right side
+    and that of the left side are the same computation on that side's points and tangents: for every join type the two
+    arms of FlexPath::to_polygons are equal up to a consistent renaming of variables (alpha-equivalence by first occurrence)."""
+    f = db.fn('gdstk::FlexPath::to_polygons')
+    ctx.touch(f)
+    jt = {c['v']: c['n'] for c in db.enum('gdstk::JoinType')['consts']}
+    arms = {}
+    for i_ in f.walk():
+        if i_.k != 'IfStmt':
+            continue
+        c = _strip_casts(i_.child('cond'))
+        if c is None or c.k != 'BinaryOperator' or c.op != '==':
+            continue
+        l, r = _strip_casts(c.child('lhs')), _strip_casts(c.child('rhs'))
+        if r is not None and r.k == 'DeclRefExpr' and r.dk == 'enum' and (r.qn or '').startswith('gdstk::JoinType::') and l is not None and 'join_type' in l.text():
+            th = i_.child('then')
+            sides = {lvalue_key(x.child('obj')) for x in th.walk() if x.k == 'CXXMemberCallExpr' and x.child('obj') is not None and 'curve' in (x.child('obj').text() or '')}
+            if len(sides) == 1:
+                arms.setdefault(r.qn.split('::')[-1], []).append((sides.pop(), th))
+    n = 0
+    for name, lst in sorted(arms.items()):
+        if name == 'Round' or len(lst) != 2 or lst[0][0] == lst[1][0]:
+            continue
+        n += 1
+        (sa_, a), (sb_, b) = lst
+        ta = norm(clone.canon(a, f, ren=clone.Renamer()))
+        tb = norm(clone.canon(b, f, ren=clone.Renamer()))
+        d = clone.first_diff(ta, tb)
+        ctx.check(d is None, 'R-MIRROR', 'FlexPath::to_polygons/join:%s' % name, a.loc(), 'the %s join is the same computation on both sides (%d canonical lines)' % (name, len(ta.splitlines())),
+                  None if d is None else 'the %s join differs between the two sides of the path (%s vs %s) at canonical line %d: `%s`  vs  `%s`' % (name, a.loc(), b.loc(), d[0], d[1][:110], d[2][:110]))
+    ctx.require('R-MIRROR join arms', n, 4)
+
+
 def run(ctx):
     db = ctx.db
     ctx.attempt(check_side_symmetry, ctx, db)
+    ctx.attempt(check_join_mirror, ctx, db)
     ctx.attempt(check_bookkeeping, ctx, db)
     ctx.attempt(check_units, ctx, db)
     ctx.attempt(check_enums, ctx, db)
